@@ -185,6 +185,16 @@ func GenCorpus(r *rand.Rand, opts CorpusOpts) *Corpus {
 	if !GeoHeavy && co.GeoSpr == 180 && r.Intn(4) != 0 {
 		co.GeoSpr = 5 // world-wide spreads (boxes hundreds of degrees wide) are kept rare outside the thorough tier
 	}
+	if opts.Geo && r.Intn(3) == 0 {
+		// a third of the geo corpora straddle the antimeridian: points and query centres on both sides of +-180
+		co.GeoCX = 180 - (r.Float64()*2-1)*co.GeoSpr/4
+		if co.GeoCX > 180 {
+			co.GeoCX -= 360
+		}
+		if r.Intn(3) == 0 {
+			co.GeoCY = (r.Float64()*2 - 1) * 20 // and some of those near the equator, where a degree is widest
+		}
+	}
 	nd := 1 + r.Intn(opts.MaxDocs)
 	if r.Intn(40) == 0 {
 		nd = 0
